@@ -3,6 +3,7 @@ From YV Require Export Cache.ChangeStore Corr.Common.
 
 Inductive csop :=
 | OEnsure (f t : Z) (obs_err : bool) (obs_asked : list range)
+| OEnsureFail (f t : Z) (k : nat) (obs_err : bool) (obs_asked : list range)   (* the fetcher's (k+1)-th call fails *)
 | OExpand (f t : Z)
 | OGrow (cs : list chg)   (* new rows appear in the table *)
 | OInsert (cs : list chg)
@@ -23,6 +24,12 @@ Fixpoint run_ops (tb : table) (s : store) (ops : list csop) : bool * store :=
           | None => if oerr then run_ops tb s r else (false, s)
           | Some (s', asked) =>
               if negb oerr && list_eqb range_eqb asked oasked then run_ops tb s' r else (false, s)
+          end
+      | OEnsureFail f t k oerr oasked =>
+          match ensure_failing (tfetch tb) s f t k with
+          | None => if oerr then run_ops tb s r else (false, s)
+          | Some (s', asked, failed) =>
+              if Bool.eqb oerr failed && list_eqb range_eqb asked oasked then run_ops tb s' r else (false, s)
           end
       | OExpand f t => run_ops tb (expand s (f, t)) r
       | OGrow cs => run_ops (tb ++ cs) s r
